@@ -23,11 +23,21 @@ func (c *Ctx) unmarshalTargetType(f *ssa.Function) types.Type {
 // unmarshalTargetTypeD: the type json.Unmarshal decodes into in f; when f does not decode itself, in the module
 // helpers it calls (a decoding helper, possibly an instance of a generic one).
 func (c *Ctx) unmarshalTargetTypeD(f *ssa.Function, depth int) types.Type {
+	return c.unmarshalTargetTypeA(f, depth, nil)
+}
+
+// unmarshalTargetTypeA: args gives the types handed over for f's interface-typed parameters at the call under
+// consideration (a decoding helper that takes its target as `interface{}`).
+func (c *Ctx) unmarshalTargetTypeA(f *ssa.Function, depth int, args map[*ssa.Parameter]types.Type) types.Type {
 	var out types.Type
 	if f == nil || depth > 3 {
 		return nil
 	}
-	var callees []*ssa.Function
+	type hcall struct {
+		g  *ssa.Function
+		cl *ssa.Call
+	}
+	var callees []hcall
 	forEachInstr(f, func(in ssa.Instruction) {
 		cl, ok := in.(*ssa.Call)
 		if !ok || cl.Call.StaticCallee() == nil {
@@ -35,12 +45,19 @@ func (c *Ctx) unmarshalTargetTypeD(f *ssa.Function, depth int) types.Type {
 		}
 		if cl.Call.StaticCallee().String() != "encoding/json.Unmarshal" {
 			if g := cl.Call.StaticCallee(); inModule(g) && g.Blocks != nil {
-				callees = append(callees, g)
+				callees = append(callees, hcall{g, cl})
 			}
 			return
 		}
-		if mi, isMI := cl.Call.Args[1].(*ssa.MakeInterface); isMI {
-			if p, isP := mi.X.Type().Underlying().(*types.Pointer); isP {
+		var tt types.Type
+		switch x := cl.Call.Args[1].(type) {
+		case *ssa.MakeInterface:
+			tt = x.X.Type()
+		case *ssa.Parameter:
+			tt = args[x]
+		}
+		if tt != nil {
+			if p, isP := tt.Underlying().(*types.Pointer); isP {
 				out = p.Elem()
 			}
 		}
@@ -50,8 +67,22 @@ func (c *Ctx) unmarshalTargetTypeD(f *ssa.Function, depth int) types.Type {
 		if f.Signature.Results().Len() > 0 {
 			res = derefT(f.Signature.Results().At(0).Type())
 		}
-		for _, g := range callees {
-			if t := c.unmarshalTargetTypeD(g, depth+1); t != nil && (out == nil || (res != nil && types.Identical(t, res))) {
+		for _, hc := range callees {
+			sub := map[*ssa.Parameter]types.Type{}
+			for i, a := range hc.cl.Call.Args {
+				if i >= len(hc.g.Params) {
+					break
+				}
+				switch x := a.(type) {
+				case *ssa.MakeInterface:
+					sub[hc.g.Params[i]] = x.X.Type()
+				case *ssa.Parameter:
+					if t, ok := args[x]; ok {
+						sub[hc.g.Params[i]] = t
+					}
+				}
+			}
+			if t := c.unmarshalTargetTypeA(hc.g, depth+1, sub); t != nil && (out == nil || (res != nil && types.Identical(t, res))) {
 				out = t
 			}
 		}
